@@ -16,6 +16,7 @@ def run(ctx):
     runlib.lean_part(ctx, "RootSim.Props.PrefixUnique", THEOREMS_D)
     # glue (E): every reachable state of the abstract global Time Warp machine satisfies Hist (Props/C01Glue.lean)
     runlib.lean_part(ctx, "RootSim.Props.C01Glue", ['RootSim.C01Glue.reachable_hist','RootSim.C01Glue.tw_committed_prefix_of_sequential','RootSim.C01Glue.tw_committed_monotone','RootSim.C01Glue.tw_sequential_run_exists'])
+    runlib.lean_part(ctx, "RootSim.Props.C01GlueV2", ['RootSim.C01GlueV2.tw_committed_monotone_V2','RootSim.C01GlueV2.tw_committed_prefix_of_sequential_V2'])
     # runs stopped by a termination time (final state speculative) as well as predicate-terminated ones
     agg = runlib.run_matrix(ctx, "committed stream per LP vs Lean sequential per-LP sequence at every fossil collection and at shutdown",
                             36, 900, oracle_keys=("s_below_gvt",), threads=(1, 2, 3, 4), ckpts=(1, 2, 3, 7, 0), tterm=True,
